@@ -5,7 +5,7 @@ import itertools
 import actions
 import framegen
 import gen
-from abstraction import abstract
+from abstraction import abstract, as_int
 
 DRIVERS = {}
 
@@ -305,7 +305,7 @@ def drive_c14(ctx):
     if ctx.shard != 0:
         return
     items = list(commands.INDEX_MAPPING.items())
-    rec.add('MappingKeys', P, nt=True, keys=sorted(k for k, _ in items), n=len(items))
+    rec.add('MappingKeys', P, nt=True, keys=sorted(as_int(k) for k, _ in items), n=len(items))
     for key, cls in items:
         slots = list(cls.__slots__)
         try:
@@ -332,19 +332,19 @@ def drive_c14(ctx):
                 types.append(str(cls.amqp_type(a)))
             except Exception:  # noqa
                 types.append('<missing>')
-        rec.add('CatalogEntry', P, nt=True, key=key, name=str(cls.name), frame_id=cls.frame_id, index=cls.index,
+        rec.add('CatalogEntry', P, nt=True, sigx=str(cls.name), key=as_int(key), name=str(cls.name), frame_id=as_int(cls.frame_id), index=as_int(cls.index),
                 slots=slots, types=types, sync=bool(cls.synchronous), sync_is_bool=isinstance(cls.synchronous, bool),
                 responses=[str(x) for x in cls.valid_responses], defaults=defaults,
                 docs=[docs.get(a, '') for a in slots], attributes=list(cls.attributes()))
     pr = commands.Basic.Properties
     slots = list(pr.__slots__)
     o = pr()
-    rec.add('PropertiesEntry', P, nt=True, name=str(pr.name), frame_id=pr.frame_id, index=pr.index, slots=slots,
-            types=[str(pr.amqp_type(a)) for a in slots], flags=[int(pr.flags.get(a, -1)) for a in slots],
+    rec.add('PropertiesEntry', P, nt=True, name=str(pr.name), frame_id=as_int(pr.frame_id), index=as_int(pr.index), slots=slots,
+            types=[str(pr.amqp_type(a)) for a in slots], flags=[as_int(pr.flags.get(a, -1)) for a in slots],
             nflags=len(pr.flags), defaults=[abstract(getattr(o, a)) for a in slots])
     for cname, cid, _ in framegen.cat.CATALOG:
         k = getattr(commands, cname)
-        rec.add('ClassEntry', P, nt=True, name=cname, frame_id=k.frame_id, index=k.index)
+        rec.add('ClassEntry', P, nt=True, name=cname, frame_id=as_int(k.frame_id), index=as_int(k.index))
     # the RPC metadata in use: a client that decides ONLY from the class attributes (Rpc.tla)
     rng = ctx.rng
     classes = [c for _, c in items]
@@ -377,19 +377,24 @@ def drive_c17(ctx):
     if ctx.shard != 0:
         return
     items = list(exceptions.CLASS_MAPPING.items())
-    rec.add('ReplyKeys', P, nt=True, keys=sorted(k for k, _ in items), classes=sorted(set(c.__name__ for _, c in items)))
+    rec.add('ReplyKeys', P, nt=True, keys=sorted(as_int(k) for k, _ in items), classes=sorted(set(c.__name__ for _, c in items)))
     for key, cls in items:
-        rec.add('ReplyCode', P, nt=True, key=key, value=cls.value, name=str(cls.name), cls=cls.__name__,
+        rec.add('ReplyCode', P, nt=True, key=as_int(key), value=as_int(cls.value), name=str(cls.name), cls=cls.__name__,
                 soft=issubclass(cls, exceptions.AMQPSoftError), hard=issubclass(cls, exceptions.AMQPHardError),
                 amqp=issubclass(cls, exceptions.AMQPError), base=issubclass(cls, exceptions.PAMQPException),
                 is_exc=issubclass(cls, Exception))
+    def _l(x):
+        try:
+            return [as_int(v) for v in x]
+        except TypeError:
+            return [-1]
     rec.add('Constants', P, nt=True, c={
-        'FRAME_METHOD': constants.FRAME_METHOD, 'FRAME_HEADER': constants.FRAME_HEADER,
-        'FRAME_BODY': constants.FRAME_BODY, 'FRAME_HEARTBEAT': constants.FRAME_HEARTBEAT,
-        'FRAME_MIN_SIZE': constants.FRAME_MIN_SIZE, 'FRAME_END': constants.FRAME_END,
-        'FRAME_HEADER_SIZE': constants.FRAME_HEADER_SIZE, 'FRAME_MAX_SIZE': constants.FRAME_MAX_SIZE,
-        'VERSION': list(constants.VERSION), 'AMQP': list(constants.AMQP),
-        'FRAME_END_CHAR': list(constants.FRAME_END_CHAR), 'REPLY_SUCCESS': constants.REPLY_SUCCESS})
+        'FRAME_METHOD': as_int(constants.FRAME_METHOD), 'FRAME_HEADER': as_int(constants.FRAME_HEADER),
+        'FRAME_BODY': as_int(constants.FRAME_BODY), 'FRAME_HEARTBEAT': as_int(constants.FRAME_HEARTBEAT),
+        'FRAME_MIN_SIZE': as_int(constants.FRAME_MIN_SIZE), 'FRAME_END': as_int(constants.FRAME_END),
+        'FRAME_HEADER_SIZE': as_int(constants.FRAME_HEADER_SIZE), 'FRAME_MAX_SIZE': as_int(constants.FRAME_MAX_SIZE),
+        'VERSION': _l(constants.VERSION), 'AMQP': _l(constants.AMQP),
+        'FRAME_END_CHAR': _l(constants.FRAME_END_CHAR), 'REPLY_SUCCESS': as_int(constants.REPLY_SUCCESS)})
     rec.add('UnmarshalingExc', P, nt=True, base=issubclass(exceptions.UnmarshalingException, exceptions.PAMQPException),
             amqp=issubclass(exceptions.UnmarshalingException, exceptions.AMQPError))
 
